@@ -84,6 +84,19 @@ Fixpoint spec_loop (m : mods) (name : option N) (toks : list tk) {struct toks}
                        | [] => spec_loop m (Some (fund_code ws)) l
                        end) r [kty t]
                   else spec_loop m (Some (fund_code [kty t])) r
+                else if memN (kty t) name_compound_start then
+                  (* an elaborated type specifier `struct X` / `enum E` (the class key is kept on the name by the parser; the
+                     model keeps the name): only the plain form `key NAME` that is not followed by '::' or '<' *)
+                  match r with
+                  | x :: r1 =>
+                      if is T_NAME x && negb (is T_enum t && (match r1 with y :: _ => is T_class y || is T_struct y | [] => false end))
+                      then match r1 with
+                           | y :: _ => if is T_DBL_COLON y || is T_LIT_60 y then DErr 4 else spec_loop m (Some (kval x)) r1
+                           | [] => spec_loop m (Some (kval x)) r1
+                           end
+                      else DErr 4
+                  | [] => DErr 4
+                  end
                 else if memN (kty t) pqname_start_tokens then DErr 4 else finish
             end
         end
